@@ -273,7 +273,21 @@ func c15R2(c *Ctx) {
 			good := e != nil && e.K == EField && e.Var == fRR && e.Op == token.AND && e.X.K == EParam
 			c.x5Decide(R, "C15-R2|"+fnKey(TopLevel(s.Fn))+"|PackRR argument", instrPos(s.Instr), good, "dns.PackRR(&state.rr, …)", "dns.PackRR is handed "+e.String()+" instead of the shim: the library writes Rdlength into the caller's record")
 		}
-		c.MustCrossFrom(R, pi, "PackRR without a fresh header copy", func(in ssa.Instruction) bool { return isFieldStore(in, vRR, NotNilConst) }, isPlainCallTo(packRR), StoreBarrier("rr.hdr", vHdr, nil))
+		// The shim is loaded (rr.RR = record) in packInto itself or in an unexported helper
+		// its per-record body was extracted into: the ordering "record loaded … header copy
+		// … PackRR" is judged in every function of packInto's scope that loads the shim, and
+		// at least one of them must.
+		loadsShim := func(in ssa.Instruction) bool { return isFieldStore(in, vRR, NotNilConst) }
+		nLoad := 0
+		for _, g := range scopeFuncs(pi) {
+			if g.Parent() != nil || len(instrsWhere(g, loadsShim)) == 0 {
+				continue // closures are walked with their top-level function
+			}
+			nLoad += c.MustCrossFrom(R, g, "PackRR without a fresh header copy", loadsShim, isPlainCallTo(packRR), StoreBarrier("rr.hdr", vHdr, nil))
+		}
+		if nLoad == 0 {
+			c.unresolved(R, fnKey(pi)+"|PackRR without a fresh header copy", "no start site found (rule would pass vacuously)")
+		}
 		if h := c.fn(R, x5WirePkgRel+".(*rrView).Header"); h != nil {
 			good := false
 			for _, in := range returnsWhere(h, 0, nil) {
